@@ -82,3 +82,25 @@ def _rename_seq(it, v, old, new):
         if x[0] == 'elem' and x[1] == ('seq', old):
             m[x] = ('elem', ('seq', new), x[2], x[3])
     return m
+
+
+def memoryless_scan_as_map(it, seq):
+    """A scan whose next state does not depend on its state (`prev = f(elem)`; only the *previous element's* value is
+    carried) is an elementwise map with the state spelled out: σ_ι = init for ι = 0 and next(ι − 1) otherwise.
+    Returns the equivalent SeqMap, or None when the state really accumulates."""
+    from ..values import SeqScan, SeqMap
+    from ..terms import subterms, subst_term, mk_sel
+    if not isinstance(seq, SeqScan) or seq.err is not None:
+        return None
+    syms = [fv for (_loc, fv) in seq.state_syms]
+    for nx in seq.next_state:
+        if not isinstance(nx, tuple) or any(x in syms for x in subterms(nx)):
+            return None
+    i = seq.ivar
+    prev = it.isub(i, ('ic', 1))
+    m = {}
+    for fv, init, nx in zip(syms, seq.init, seq.next_state):
+        if not isinstance(init, tuple):
+            return None
+        m[fv] = mk_sel(('icmp', 'eq', i, ('ic', 0)), init, subst_term(nx, {i: prev}))
+    return SeqMap(seq.src, i, it.subst_value(seq.out, m), 'memoryless scan', seq.n)
